@@ -174,6 +174,10 @@ def gen(rng, tier):
                 c = rand_dir_case(rng)
                 c["ignore"] = rand_ignore(rng)
                 c["sort"] = rng.random() < 0.5
+                # a fifth of the rendered trees go through the real `coca bs -p dir [-x kinds] [-s type]` in a fresh process
+                # (coca_reporter/bs.json); ignore rules must survive the command line
+                if rng.random() < 0.2 and all("," not in x for x in c["ignore"]):
+                    c["cli"] = True
                 sh.append(c)
         shards.append(sh)
     return shards
